@@ -4,6 +4,8 @@ proved core: never reported as proved beyond the functions listed under `functio
 Proved (symbolic execution of the real bodies): VersionRange.matches, _BaseField.get_tag,
 _BaseField.is_nullable_for_version, PrimitiveField.is_nullable, filter_version_fields,
 message_class_vars, _entity_type_line, header_schema.* (shared with C08).
+Enumerated completely (finite tables, ground obligations on the emitted text): Primitive.get_type_hint for the 17
+primitives x {required, optional}; _format_default_for_tagged for the 17 primitives and the three composite kinds.
 Bounded (run-time contract, stated bound): the real generate_schema.main() / generate_index.main()
 executed in a scratch tree outside /repo and /verif on an enumerated domain of definitions; for every
 declared version the emitted module is imported and compared with an independent reading of the
@@ -484,6 +486,80 @@ def bounded(rep, tier):
     return n_eval, fails, defs
 
 
+def tables(rep):
+    """The generator's finite decision tables, enumerated completely (ground obligations, discharged by evaluating the
+    emitted expression text): the type annotation chosen for each primitive, and the default written for a tagged field
+    without an explicit default.  Expected values come from tables written here, independent of the generator."""
+    import datetime as _dt
+    import uuid as _uuid
+    import kio.static.primitive as P
+    from codegen import generate_schema as G
+    from codegen import parser as CP
+    from kio.schema.errors import ErrorCode
+    ns = {k: getattr(P, k) for k in dir(P) if not k.startswith("_")}
+    ns.update({"uuid": _uuid, "ErrorCode": ErrorCode, "datetime": _dt, "str": str, "bytes": bytes, "bool": bool})
+    py_type = {"int8": P.i8, "int16": P.i16, "int32": P.i32, "int64": P.i64, "uint16": P.u16, "uint32": P.u32, "uint64": P.u64,
+               "float64": P.f64, "string": str, "bytes": bytes, "records": P.Records, "uuid": _uuid.UUID, "bool": bool,
+               "error_code": ErrorCode, "timedelta_i32": P.i32Timedelta, "timedelta_i64": P.i64Timedelta, "datetime_i64": P.TZAware}
+    # wire-level null exists only for these; every other type gets its zero value as implicit default of a tagged field
+    has_null = {"string", "bytes", "records", "uuid", "datetime_i64"}
+    zero = {"int8": 0, "int16": 0, "int32": 0, "int64": 0, "uint16": 0, "uint32": 0, "uint64": 0, "float64": 0.0, "bool": False,
+            "error_code": ErrorCode.none, "timedelta_i32": _dt.timedelta(0), "timedelta_i64": _dt.timedelta(0)}
+    members = list(CP.Primitive)
+    rep.add_ground("C16/tables/primitive-enum-is-the-17-kafka-types", sorted(m.value for m in members) == sorted(py_type),
+                   sorted(m.value for m in members))
+    for m in members:
+        want_t = py_type.get(m.value)
+        for optional in (False, True):
+            name = f"C16/tables/get_type_hint/{m.value}/{'optional' if optional else 'required'}"
+            try:
+                text = m.get_type_hint(optional=optional)
+                got = eval(text, dict(ns))      # noqa: S307 - text emitted by the generator under verification
+                want = (want_t | None) if (optional or m.value == "uuid") else want_t
+                rep.add_ground(name, want_t is not None and got == want, f"{text!r} -> {got!r}, expected {want!r}",
+                               witness={"primitive": m.value, "optional": optional, "emitted": text})
+            except Exception as ex:       # noqa: BLE001
+                rep.add_ground(name, False, repr(ex), witness={"primitive": m.value, "optional": optional})
+        name = f"C16/tables/_format_default_for_tagged/{m.value}"
+        try:
+            text = G._format_default_for_tagged(m)
+            got = eval(text, dict(ns))          # noqa: S307
+            if m.value in has_null:
+                ok = got is None
+                want = None
+            else:
+                want = zero[m.value]
+                ok = got == want and type(got) is type(want) and isinstance(got, want_t) and (m.value != "float64" or str(got) == "0.0")
+                # the constructor named in the text is the field's own type (phantom constructors return plain values, so
+                # the value alone cannot tell i8(0) from u16(0))
+                import ast as _ast
+                node = _ast.parse(text, mode="eval").body
+                if isinstance(node, _ast.Call):
+                    f = node.func
+                    while isinstance(f, _ast.Attribute) and f.attr == "parse":
+                        f = f.value
+                    ctor = eval(compile(_ast.Expression(f), "<emitted>", "eval"), dict(ns))      # noqa: S307
+                    ok = ok and ctor is want_t
+            rep.add_ground(name, ok, f"{text!r} -> {got!r}, expected {want!r}", witness={"primitive": m.value, "emitted": text})
+        except Exception as ex:           # noqa: BLE001
+            rep.add_ground(name, False, repr(ex), witness={"primitive": m.value})
+    for label, ft in (("primitive-array", CP.PrimitiveArrayType(CP.Primitive.int32)), ("entity", CP.EntityType("Thing")),
+                      ("common-struct", None)):
+        name = f"C16/tables/_format_default_for_tagged/{label}"
+        try:
+            if ft is None:
+                import inspect
+                params = list(inspect.signature(CP.CommonStructType).parameters)
+                ft = CP.CommonStructType(*[None] * len(params))
+            text = G._format_default_for_tagged(ft)
+            rep.add_ground(name, text == "None", f"{text!r}, expected 'None'", witness={"kind": label, "emitted": text})
+        except Exception as ex:           # noqa: BLE001
+            rep.add_ground(name, False, repr(ex), witness={"kind": label})
+    rep.add_units([{"unit": "C16/tables", "paths": 0, "time": 0.0, "obligations": [], "undecided": [], "effects": [],
+                    "functions": [dict(common.function_record(fn), role="finite decision table, enumerated completely (ground obligations)")
+                                  for fn in (CP.Primitive.get_type_hint, G._format_default_for_tagged)]}])
+
+
 def main(tier):
     rep = common.Report("C16", tier, "contracts on the generator's decision functions proved by symbolic execution (z3); emission: "
                         "BOUNDED run-time contract check of the real generator over an enumerated domain of definitions",
@@ -492,6 +568,10 @@ def main(tier):
         rep.add_units(common.run_units("checks.c16", ["core"]))
     except Exception as ex:       # noqa: BLE001
         rep.add_ground("C16/core-runs", False, repr(ex))
+    try:
+        tables(rep)
+    except Exception as ex:       # noqa: BLE001
+        rep.add_ground("C16/tables-run", False, repr(ex))
     n, fails, defs = bounded(rep, tier)
     nver = sum(D.parse_range(d["validVersions"])[1] - D.parse_range(d["validVersions"])[0] + 1 for d in defs)
     rep.add_bounded("bounded/generator-on-enumerated-definitions",
